@@ -140,8 +140,8 @@ pub(crate) fn enc_of(v: u32) -> (u8, u32, usize) { encode_offset(v) }
 /// S5 stub body: every behaviour of the block encoder the framing code of compress_fastest can observe
 pub(crate) fn havoc_compress_block<MM: Matcher>(state: &mut CompressState<MM>, output: &mut Vec<u8>) {
     let n: usize = nd::any();
-    nd::assume(n <= 12);
-    let bytes: [u8; 12] = nd::any();
+    nd::assume(n <= 6);
+    let bytes: [u8; 6] = nd::any();
     output.extend_from_slice(&bytes[..n]);
     let new_table: bool = nd::any();
     if new_table { state.last_huff_table = Some(crate::huff0::huff0_encoder::verif_kani::marker_table(2)); }
